@@ -90,7 +90,9 @@ def classify_common(rec):
             return "F32-group-by-constant"
         if re.search(r"SELECT NULL FROM", sql) and "aggregate" in kinds:
             return "F25-dropped-aggregate"
-        if "distinct" in kinds and "take" in kinds and re.search(r"SELECT DISTINCT [^()]* LIMIT", sql) and take_before_distinct(rec["program"]):
+        # a take and a later distinct share ONE SELECT: `SELECT DISTINCT .. LIMIT n`, or -- since fix 456bdcd made the take's sort
+        # keys columns of that SELECT -- `SELECT DISTINCT a, b, <sort key> .. ORDER BY <sort key>` (also without LIMIT: take 1..)
+        if "distinct" in kinds and "take" in kinds and re.search(r"SELECT DISTINCT (?:(?!SELECT ).)*? (?:LIMIT|ORDER BY) ", sql + " ") and take_before_distinct(rec["program"]):
             return "F19-take-then-distinct"
     return None
 
@@ -115,6 +117,14 @@ def directed_known(rng=None):
         S("take", "take 3", "TTake None (Some (3))", rng=(None, 3)),
         S("distinct", "group {a} (take 1)", "TDistinct", nkeys=1)], False, ["a"]),
         {"t": [[1, 1, 0, 0, 0], [2, 1, 0, 0, 0], [3, 1, 0, 0, 0], [4, 2, 0, 0, 0], [5, 3, 0, 0, 0]], "u": [[1, 0, 0, 0]]}))
+    # F19 since fix 456bdcd: the take's sort key becomes a column of the SELECT DISTINCT (duplicates survive even when the take
+    # cuts nothing: `take 1..` was right before that fix)
+    out.append(("F19-take-then-distinct", P.Program([
+        S("sort", "sort {id}", "TSort [(false, %s)]" % col("id"), keys=[(False, ("col", None, "id"))]),
+        S("take", "take 1..", "TTake (Some (1)) None", rng=(1, None)),
+        S("select", "select {a, b}", "TSelect [(None, %s); (None, %s)]" % (col("a"), col("b"))),
+        S("distinct", "group {a, b} (take 1)", "TDistinct", nkeys=2)], False, ["a", "b"]),
+        {"t": [[1, 1, 1, 0, 0], [2, 1, 1, 0, 0], [3, 2, 1, 0, 0]], "u": [[1, 0, 0, 0]]}))
     # F32: a group key defined as an integer literal
     out.append(("F32-group-by-constant", P.Program([
         S("derive", "derive {k9 = 2}", "TDerive [(Some %d%%N, ELit (VInt 2))]" % n("k9")),
